@@ -47,6 +47,7 @@ type World struct {
 	libc      map[string]*PkgContracts
 	notes     []string
 	intact    map[string]string // pkg → "" ok, or problem text
+	allTypes  map[string]*types.Package // every package seen while loading (standard library included)
 }
 
 func recvTypeName(fd *ast.FuncDecl) string {
@@ -129,6 +130,20 @@ func loadWorld(pkgNames []string) (*World, error) {
 				visit(ip)
 			}
 		}
+	}
+	w.allTypes = map[string]*types.Package{}
+	var collect func(p *packages.Package)
+	collect = func(p *packages.Package) {
+		if p.Types == nil || w.allTypes[p.PkgPath] != nil {
+			return
+		}
+		w.allTypes[p.PkgPath] = p.Types
+		for _, ip := range p.Imports {
+			collect(ip)
+		}
+	}
+	for _, p := range pkgs {
+		collect(p)
 	}
 	for _, p := range pkgs {
 		if len(p.Errors) > 0 {
